@@ -36,6 +36,7 @@ type hookEv struct {
 	key  portKey
 	inb  bool
 	pck  int
+	val  int // the packet's payload when it is an int (the workflows' values), else 0
 }
 
 // tap is the harness's own log of the packets passing every port of every symbol: its packet
@@ -71,7 +72,7 @@ func (t *tap) record(proc *process.Process, key portKey, inb bool, p *packet.Pac
 	if !ok {
 		return
 	}
-	t.log = append(t.log, hookEv{sess: s, key: key, inb: inb, pck: t.pckID(p)})
+	t.log = append(t.log, hookEv{sess: s, key: key, inb: inb, pck: t.pckID(p), val: intOf(p)})
 }
 
 func installTap(f *flow) *tap {
@@ -234,8 +235,66 @@ func framesOracle(t *tap, sess int, rows []frameRow, sr *sessRun) (class, what s
 					return c, w
 				}
 			case "sink":
-				if c, w := check(key, sr.arrived[key.sym], sr.sent[key.sym]); c != "" {
-					return c, w
+				// the reader hands the requests out in delivery order, by identity, and Receive answers
+				// the oldest delivered one: request j of the port is arrived[j], its answer sent[j]
+				// (an in-port with several links: whatever order the agent's hook saw the packets in)
+				arrived, sent := sr.arrived[key.sym], sr.sent[key.sym]
+				for i, r := range perPort[key] {
+					j := -1
+					for x, p := range arrived {
+						if t.pcks[p] == r.in {
+							j = x
+						}
+					}
+					if j < 0 {
+						return "frame-not-request-i-answer-i", fmt.Sprintf("port %v (%s): frame %d holds request packet %s, which never arrived at this port", key, t.names[key], i, pid(r.in))
+					}
+					if j < len(sent) && t.pcks[sent[j]] != r.out {
+						return "frame-pairs-request-with-another-answer", fmt.Sprintf("port %v (%s): frame %d pairs request packet %s (delivered as request %d of the port) with packet %s, but the answer to request %d was packet %s", key, t.names[key], i, pid(r.in), j, pid(r.out), j, pid(t.pcks[sent[j]]))
+					}
+				}
+			case "pass":
+				// an observed node: its forward loop emits in the order its in-port delivered, and its
+				// reader's Receive answers the oldest delivered request – so the k-th emission on
+				// "out" (value − c) identifies the k-th delivered request and the k-th packet leaving
+				// through the in-port is its answer, whatever order the inbound hooks ran in
+				if key.in < 0 {
+					continue
+				}
+				c := sr.s.f.spec.nodes[key.sym].c
+				type reqEv struct{ pck, val int }
+				var reqs []reqEv
+				var emitted, answers []int
+				for _, e := range t.log {
+					if e.sess != sess || e.key.sym != key.sym {
+						continue
+					}
+					switch {
+					case e.key == key && e.inb:
+						reqs = append(reqs, reqEv{e.pck, e.val})
+					case e.key == key && !e.inb:
+						answers = append(answers, e.pck)
+					case e.key.in < 0 && !e.inb && t.names[e.key] == "out":
+						emitted = append(emitted, e.val-c)
+					}
+				}
+				truth := map[int]int{} // request packet → its answer packet
+				used := make([]bool, len(reqs))
+				for k, v := range emitted {
+					for x, rq := range reqs {
+						if !used[x] && rq.val == v {
+							used[x] = true
+							if k < len(answers) {
+								truth[rq.pck] = answers[k]
+							}
+							break
+						}
+					}
+				}
+				for i, r := range perPort[key] {
+					if want, ok := truth[r.in]; ok && want != r.out {
+						return "frame-pairs-request-with-another-answer", fmt.Sprintf("port %v (%s): frame %d pairs request packet %s with packet %s, but that request was answered by packet %s (delivery order of the port: the node emitted %v, answers left in the order %v)", key, t.names[key], i, pid(r.in), pid(r.out), pid(want), emitted, answers)
+					}
 				}
 			}
 		}
@@ -296,8 +355,8 @@ func framesOracle(t *tap, sess int, rows []frameRow, sr *sessRun) (class, what s
 
 // framesCase runs one workflow with the agent attached and compares Agent.Frames with the model
 // (fed the harness's hook log) and with the oracle.
-func framesCase(c *lib.Ctx, fs flowSpec, nsess int, ops []op, early bool, sc *lib.Script, fails *[]lib.OracleFail) (key string) {
-	ok, p := lib.WithTimeout(12*watchdog, func() { key = framesCaseBody(c, fs, nsess, ops, early, sc, fails) })
+func framesCase(c *lib.Ctx, fs flowSpec, nsess int, ops []op, early bool, sc *lib.Script, fails *[]lib.OracleFail, prep ...func(*runner)) (key string) {
+	ok, p := lib.WithTimeout(12*watchdog, func() { key = framesCaseBody(c, fs, nsess, ops, early, sc, fails, prep...) })
 	if !ok || p != nil {
 		*fails = append(*fails, lib.OracleFail{Class: "hang", What: fmt.Sprintf("%v: the frames case did not finish within %v (panic=%v): a call into the agent or the workflow never returned", fs, 12*watchdog, p), Replay: goroutineDump()})
 	}
@@ -306,7 +365,7 @@ func framesCase(c *lib.Ctx, fs flowSpec, nsess int, ops []op, early bool, sc *li
 
 // early: session 0 is terminated with its requests still unanswered (its frames are read just
 // before); what the agent then still holds for the dead process is reported as an observation.
-func framesCaseBody(c *lib.Ctx, fs flowSpec, nsess int, ops []op, early bool, sc *lib.Script, fails *[]lib.OracleFail) (key string) {
+func framesCaseBody(c *lib.Ctx, fs flowSpec, nsess int, ops []op, early bool, sc *lib.Script, fails *[]lib.OracleFail, prep ...func(*runner)) (key string) {
 	agent := runtime.NewAgent()
 	f, err := build(fs, agent)
 	if err != nil {
@@ -322,6 +381,9 @@ func framesCaseBody(c *lib.Ctx, fs flowSpec, nsess int, ops []op, early bool, sc
 	}
 	t := installTap(f)
 	r := newRunner(f, nsess)
+	for _, p := range prep { // directed scenarios: the harness's own hooks, added after the agent's
+		p(r)
+	}
 	for i, sr := range r.ss {
 		t.mu.Lock()
 		t.procs[sr.s.proc] = i
@@ -365,6 +427,14 @@ func framesCaseBody(c *lib.Ctx, fs flowSpec, nsess int, ops []op, early bool, sc
 				c.Hit("frames-hook-fired-more-often-than-requests-passed")
 				trace = append(trace, fmt.Sprintf("# hook call beyond the %d requests of port %v (%s) in session %d: packet %d", want, e.key, t.names[e.key], e.sess, e.pck))
 				continue
+			}
+			// a sink's in-port: the model is told the requests in the order the reader delivered
+			// them (the harness read them off the reader, by identity) – the order in which the
+			// port's inbound hooks happened to run is not the request order of the port
+			if sr := r.ss[e.sess]; e.inb && e.key.in >= 0 && fs.nodes[e.key.sym].kind == "sink" && seen[k] <= len(sr.arrived[e.key.sym]) {
+				if id, ok := t.pcks[sr.arrived[e.key.sym][seen[k]-1]]; ok {
+					e.pck = id
+				}
 			}
 		}
 		name := "outb"
